@@ -137,6 +137,16 @@ def closure_by_width(stats, cross=False):
     return {w: [v[k] for k in sorted(v)] for w, v in out.items()}
 
 
+def unbatch(ev, x):
+    """a rejected sub-event of a k=batch line -> the stand-alone event"""
+    if ev.get("k") != "batch":
+        return ev
+    s = ev["subs"][int(x) - 1]
+    return {"k": s[0], "op": s[1], "how": s[2], "exc": s[3], "p": s[4], "R": s[5], "rb": s[6], "C": s[7],
+            "n": 3 if s[7] else 2, "A": ev["A"], "B": ev["B"], "ctx": ev["ctx"], "cls": ev["cls"],
+            "tg": ev.get("tg", "det")}
+
+
 def sig(ev, clause):
     return C.sig(signature(ev, clause))[:13]
 
@@ -228,10 +238,10 @@ def plan_c23(tier, seed, regen):
     thorough = tier == "thorough" or regen
     p = [{"gen": "dsis", "W": 1, "mod3": 1, "mod_dd": 1, "union_si": 1},
          {"gen": "vs", "W": 1, "mod2": 1, "mod_vv": 1}]
-    p += parts({"gen": "dsis", "W": 2, "mod3": 40, "mod_pop": 1 if thorough else 3, "mod_dd": 20, "union_si": 1}, N)
-    p += parts({"gen": "dsis", "W": 2, "mod3": 40, "mod_pop": 3 if thorough else 9, "mod_dd": 40, "collapse": 3,
+    p += parts({"gen": "dsis", "W": 2, "mod3": 40, "mod_pop": 1 if thorough else 3, "mod_dd": 60, "union_si": 1}, N)
+    p += parts({"gen": "dsis", "W": 2, "mod3": 40, "mod_pop": 3 if thorough else 9, "mod_dd": 120, "collapse": 3,
                 "extra": []}, N)
-    p += parts({"gen": "vs", "W": 2, "mod2": 5 if thorough else 15, "mod_vv": 7}, N)
+    p += parts({"gen": "vs", "W": 2, "mod2": 5 if thorough else 15, "mod_vv": 12}, N)
     phases = [("sets", "det", p)]
     if not regen:
         n = 3 if thorough else 1
@@ -332,11 +342,13 @@ def check(pid, tier, regen=False):
         t0 = time.time()
         bad, stats = run_phase(jobs)
         if os.environ.get("VERIF_DEBUG"):
-            print(f"[debug] round {[n for n, _, _ in rnd]}: {len(jobs)} jobs, {C.merge_stats(stats)['events']} events, "
+            print(f"[debug] round {[n for n, _, _ in rnd]}: {len(jobs)} jobs, {C.merge_stats(stats)['events']} lines, "
+                  f"{C.merge_stats(stats).get('subevents', 0)} sub-events, "
                   f"{len(bad)} rejected, {time.time() - t0:.1f}s", flush=True)
         prev_stats = stats
         all_stats += stats
-        for _, ev, clause, _x in bad:
+        for _, ev, clause, x in bad:
+            ev = unbatch(ev, x)
             if clause == "operand":
                 raise C.MachineryError("an exhaustive-tier event has an operand outside WFSet: " + json.dumps(ev)[:600])
             n_fail += 1
@@ -359,9 +371,18 @@ def check(pid, tier, regen=False):
                 f.write(s + "\n")
         print(f"regenerated findings/{pid}-exact.txt with {len(new_exact)} entries")
         R.violations = []
+    n_batch = st["outcomes"].get("batch", 0)
+    evaluations = st["events"] - n_batch + st.get("subevents", 0)
+    sub_out = {}
+    for s_ in all_stats:
+        for k, v in s_.get("sub_outcomes", {}).items():
+            sub_out[k] = sub_out.get(k, 0) + v
+    outcomes = {k: v for k, v in st["outcomes"].items() if k != "batch"}
+    for k, v in sub_out.items():
+        outcomes[k] = outcomes.get(k, 0) + v
     R.coverage = {
-        "evaluations": st["events"],
-        "distinct_nontrivial": st["nontrivial"],
+        "evaluations": evaluations,
+        "distinct_nontrivial": st["nontrivial"] - n_batch + st.get("nontrivial_sub", 0),
         "rule": RULES[pid],
         "samples": st["samples"],
         "exhaustive": False,
@@ -374,7 +395,8 @@ def check(pid, tier, regen=False):
         "unsupported_combinations": st.get("unsupported", 0),
         "inputs": st.get("inputs", 0),
         "tlc_module": "TraceSI.tla (SI.tla, Term.tla, BVBits.tla)",
-        "outcomes": st["outcomes"],
+        "ndjson_lines": st["events"],
+        "outcomes": outcomes,
     }
     R.assumptions = [
         "TLC evaluates spec/SI.tla and spec/Term.tla correctly (cross-checked once against an independent brute force "
